@@ -86,10 +86,11 @@ func init() {
 	})
 	register(&Property{
 		ID: "C43",
-		Explanation: "Decides the delivery discipline of pack streaming, not offsets arithmetic: (stream-delivery) in streamPackPart the callback receives Handle/Plaintext/Err of the iterator's value; with a fallback loader configured, a blob the iterator reports as damaged reaches the callback only after loadBlobFn was tried for the same handle, and Err is cleared only on that load's success edge together with Plaintext = the fallback's bytes; after a failed download each requested blob is loaded through loadBlobFn (only if non-nil, only after beLoad failed) and delivered with exactly that load's bytes and error, and the partially filled buffer is never decoded; an error returned by the callback stops further deliveries and is returned; (chunk-partition) streamPack sorts the request, hands streamPackPart sub-slices blobs[lowerIdx:i] / blobs[lowerIdx:] of it, and lowerIdx only takes the values 0 and the upper bound of the part just streamed, so the parts are consecutive; a failing part aborts; (iterator-consumes-one) packBlobIterator.Next removes exactly the first pending entry on every non-EOF path and reports EOF only when none is left; (all-copies-tried) loadBlob moves on to the next stored copy after a failed read or a damaged copy without returning, and LoadBlob runs a second round over all index copies after dropping cached packs; nil-only-after-hash (C02) covers the plaintext check; (fallback-visits-every-blob) the loop that fetches the requested blobs one by one after a failed download is left early only behind a non-nil result of the callback, so blobs behind a lost one are still delivered (added after a seeded change). Not decided: gap/size thresholds, and that the callback is invoked exactly once per blob when the callback itself misbehaves.",
+		Explanation: "Decides the delivery discipline of pack streaming, not offsets arithmetic: (stream-delivery) in streamPackPart the callback receives Handle/Plaintext/Err of the iterator's value; with a fallback loader configured, a blob the iterator reports as damaged reaches the callback only after loadBlobFn was tried for the same handle, and Err is cleared only on that load's success edge together with Plaintext = the fallback's bytes; after a failed download each requested blob is loaded through loadBlobFn (only if non-nil, only after beLoad failed) and delivered with exactly that load's bytes and error, and the partially filled buffer is never decoded; an error returned by the callback stops further deliveries and is returned; (chunk-partition) streamPack sorts the request, hands streamPackPart sub-slices blobs[lowerIdx:i] / blobs[lowerIdx:] of it, and lowerIdx only takes the values 0 and the upper bound of the part just streamed, so the parts are consecutive; a failing part aborts; (iterator-consumes-one) packBlobIterator.Next removes exactly the first pending entry on every non-EOF path and reports EOF only when none is left; (all-copies-tried) loadBlob moves on to the next stored copy after a failed read or a damaged copy without returning, and LoadBlob runs a second round over all index copies after dropping cached packs; nil-only-after-hash (C02) covers the plaintext check; (fallback-visits-every-blob) the loop that fetches the requested blobs one by one after a failed download is left early only behind a non-nil result of the callback, so blobs behind a lost one are still delivered (added after a seeded change). (content-errors-per-blob) from the point where packBlobIterator.Next starts to decrypt a blob every return carries a nil iterator error — authentication, decompression and hash failures are delivered with the blob, which is what lets streamPackPart go on with the next blob and try the blob's other copies (added after a seeded change that turned a decompression failure into a hard error). Not decided: gap/size thresholds, and that the callback is invoked exactly once per blob when the callback itself misbehaves.",
 		Assumptions: commonAssumptions,
 		Technique:   "static analysis: call-site classification + path-sensitive reachability with nil-ness facts + phi-edge analysis of the chunk index (go/ssa)",
 		Run: func(c *eng.Ctx) {
+			ruleContentErrorsPerBlob(c)
 			ruleStreamDelivery(c)
 			ruleChunkPartition(c)
 			ruleIteratorConsumes(c)
@@ -97,6 +98,8 @@ func init() {
 			ruleFallbackVisitsEveryBlob(c)
 		},
 		Controls: []Control{
+			{Name: "hash-mismatch-is-a-hard-error", File: "internal/repository/repository.go",
+				Old: "			err = fmt.Errorf(\"read blob %v from pack %v: wrong data returned, hash is %v\",\n				h, b.packID.String(), id)\n", New: "			return packBlobValue{}, fmt.Errorf(\"read blob %v from pack %v: wrong data returned, hash is %v\",\n				h, b.packID.String(), id)\n", Rule: "content-errors-per-blob"},
 			{Name: "fallback-stops-at-first-unloadable-blob", File: "internal/repository/repository.go",
 				Old: "				err = handleBlobFn(entry.BlobHandle, buf, ierr)\n				if err != nil {\n					break\n				}", New: "				err = handleBlobFn(entry.BlobHandle, buf, ierr)\n				if err != nil {\n					break\n				}\n				if ierr != nil && len(buf) == 0 {\n					break\n				}", Rule: "fallback-visits-every-blob"},
 			{Name: "deliver-before-fallback", File: "internal/repository/repository.go",
